@@ -683,18 +683,27 @@ class Inliner:
             pre, gbody = self._prepare(g, call, caller_names, stack)
             # `yield v` with v a local of the generator and a plain loop target t: let the generator's
             # variable BE t (instead of `t = v` in front of the body), when t is free in the generator
-            if isinstance(st.target, ast.Name):
-                t_ = st.target.id
-                ys = {n.value.value.id for s_ in gbody for n in ast.walk(s_) if isinstance(n, ast.Expr) and isinstance(n.value, ast.Yield) and isinstance(n.value.value, ast.Name)}
+            tnames = [st.target.id] if isinstance(st.target, ast.Name) else ([e.id for e in st.target.elts] if isinstance(st.target, ast.Tuple) and all(isinstance(e, ast.Name) for e in st.target.elts) else None)
+            if tnames and len(set(tnames)) == len(tnames):
+                yvals = [n.value.value for s_ in gbody for n in ast.walk(s_) if isinstance(n, ast.Expr) and isinstance(n.value, ast.Yield)]
+                shapes = set()
+                for yv in yvals:
+                    if isinstance(yv, ast.Name) and len(tnames) == 1:
+                        shapes.add((yv.id,))
+                    elif isinstance(yv, ast.Tuple) and len(yv.elts) == len(tnames) and all(isinstance(e, ast.Name) for e in yv.elts):
+                        shapes.add(tuple(e.id for e in yv.elts))
+                    else:
+                        shapes.add(None)
                 used = {n.id for s_ in pre + gbody for n in ast.walk(s_) if isinstance(n, ast.Name)}
-                if len(ys) == 1 and t_ not in used:
-                    y_ = next(iter(ys))
-                    stored = any(isinstance(n, ast.Name) and n.id == y_ and isinstance(n.ctx, ast.Store) for s_ in gbody for n in ast.walk(s_))
-                    if stored:
+                if len(shapes) == 1 and None not in shapes:
+                    ynames = next(iter(shapes))
+                    stored = {n.id for s_ in gbody for n in ast.walk(s_) if isinstance(n, ast.Name) and isinstance(n.ctx, ast.Store)}
+                    if len(set(ynames)) == len(ynames) and all(y in stored for y in ynames) and not any(t in used and t not in ynames for t in tnames):
+                        ren = dict(zip(ynames, tnames))
                         for s_ in gbody:
                             for n in ast.walk(s_):
-                                if isinstance(n, ast.Name) and n.id == y_:
-                                    n.id = t_
+                                if isinstance(n, ast.Name) and n.id in ren:
+                                    n.id = ren[n.id]
             n_sites = [0]
 
             def repl(stmts):
@@ -873,6 +882,11 @@ def _tidy(fn_node: ast.AST) -> None:
             keep = []
             for st in lst:
                 if isinstance(st, ast.Assign) and len(st.targets) == 1 and isinstance(st.targets[0], ast.Name) and isinstance(st.value, ast.Name) and st.value.id == st.targets[0].id:
+                    continue
+                if isinstance(st, ast.Assign) and len(st.targets) == 1 and isinstance(st.targets[0], ast.Tuple) and isinstance(st.value, ast.Tuple) and len(st.targets[0].elts) == len(st.value.elts) and all(isinstance(a, ast.Name) and isinstance(b, ast.Name) and a.id == b.id for a, b in zip(st.targets[0].elts, st.value.elts)):
+                    continue
+                if isinstance(st, ast.AnnAssign) and st.value is None and isinstance(st.target, ast.Name):
+                    keep.append(st)
                     continue
                 if isinstance(st, ast.Pass):
                     continue
